@@ -15,6 +15,7 @@ import SkNet.Lemmas.ClassifyRank
 import SkNet.Lemmas.ClassMetrics
 import SkNet.Lemmas.ClassifySelect
 import SkNet.Lemmas.ClassifyKnnSpec
+import SkNet.Lemmas.ClassifyStrong
 
 namespace SkNet.C13
 open SkNet SkNet.Classify
@@ -346,7 +347,8 @@ theorem diffusion_minus_one_iff (c : Csr Rat) (labels : List Int) (nIter : Nat)
     DiffusionClassifier gives `-1` exactly to the nodes of the components without a seed. -/
 theorem diffusion_minus_one_iff_component (c : Csr Rat) (labels : List Int) (nIter : Nat)
     (centering : Bool) (o : Diffusion.Out) (h : Diffusion.fit c labels nIter centering = .ok o)
-    (hsym : ∀ u v, hasEdge c u v = hasEdge c v u) (i : Nat) (hi : i < labels.length) :
+    (hsym : ∀ u v, u < labels.length → v < labels.length → hasEdge c u v = hasEdge c v u)
+    (i : Nat) (hi : i < labels.length) :
     o.labels.getD i (-1) = -1 ↔
       ¬ ∃ s, 0 ≤ labels.getD s (-1) ∧ Spec.Conn labels.length (hasEdge c) s i := by
   rw [diffusion_minus_one_iff c labels nIter centering o h i hi, reach_iff_component _ hsym]
@@ -432,6 +434,49 @@ theorem propagation_rows (c : Csr Rat) (hw : ∀ p, 0 ≤ c.data.getD p 0) (labe
     Spec.rowOK 0 (Propagation.probsRow c labels i) = true :=
   propagation_probsRow_ok c hw labels i
 
+/-- ★ **probability rows, as the property states them** (Propagation): the row of node `i` sums to 1 when a
+    label reaches it — a neighbour with a non-negative label through an entry of positive weight — and to 0
+    exactly when none does. -/
+theorem propagation_rows_strong (c : Csr Rat) (hw : ∀ p, 0 ≤ c.data.getD p 0) (labels : List Int) (i : Nat) :
+    Spec.rowStrong 0 (Spec.propReaches c labels i) (Propagation.probsRow c labels i) = true :=
+  propagation_row_strong c hw labels i
+
+example : Spec.propReaches witnessGraph [0,0,1,1,1] 0 = true ∧
+    Propagation.probsRow witnessGraph [0,0,1,1,1] 0 = [5/6, 1/6] ∧
+    Spec.propReaches pathGraph [3,-1,-1,5,-1] 4 = false := by
+  refine ⟨by decide +kernel, by decide +kernel, by decide +kernel⟩
+
+/-- ★ **probability rows, as the property states them** (DiffusionClassifier, default `centering=True`, any positive
+    function for `np.exp`): 1 on every node reached from the seeds, 0 on every other node. -/
+theorem diffusion_soft_rows_strong (c : Csr Rat) (labels : List Int) (nIter : Nat) (o : Diffusion.Out)
+    (h : Diffusion.fit c labels nIter true = .ok o) (scale : Rat) (expf : Rat → Rat) (hexp : ∀ x, 0 < expf x)
+    (i : Nat) (hi : i < labels.length) :
+    Spec.rowStrong 0 (o.reached.getD i false) (getRow (Diffusion.probsSoft o scale expf) i) = true :=
+  Diffusion.soft_row_strong c labels nIter o h scale expf hexp i hi
+
+/-- ★ (DiffusionClassifier, `centering=False`, any graph): 0 on the unreached nodes; on a reached node 1, unless all
+    its temperatures are null (a node of a directed graph that the distances reach but no heat does). -/
+theorem diffusion_plain_rows_strong (c : Csr Rat) (hw : ∀ p, 0 ≤ c.data.getD p 0) (labels : List Int) (nIter : Nat)
+    (o : Diffusion.Out) (h : Diffusion.fit c labels nIter false = .ok o) (i : Nat) (hi : i < labels.length) :
+    Spec.rowStrong 0 (o.reached.getD i false && !(getRow o.temps i).all (· == 0))
+      (getRow (Diffusion.probsPlain o) i) = true :=
+  Diffusion.plain_row_strong c hw labels nIter o h i hi
+
+/-- ★ (DiffusionClassifier, `centering=False`, undirected graph): 1 on every node of a component with a seed, 0 on
+    every other node — every reached node keeps a positive temperature through the clamped iterations. -/
+theorem diffusion_plain_rows_strong_undirected (c : Csr Rat) (hw : ∀ p, 0 ≤ c.data.getD p 0) (labels : List Int)
+    (nIter : Nat) (o : Diffusion.Out) (h : Diffusion.fit c labels nIter false = .ok o)
+    (hsym : ∀ u v, u < labels.length → v < labels.length → hasEdge c u v = hasEdge c v u)
+    (i : Nat) (hi : i < labels.length) :
+    Spec.rowStrong 0 (o.reached.getD i false) (getRow (Diffusion.probsPlain o) i) = true :=
+  Diffusion.plain_row_strong_sym c hw labels nIter o h hsym i hi
+
+/-- non-vacuity of the hypotheses `hsym` (used here and by `diffusion_minus_one_iff_component`): the stored pattern of
+    the weighted path is symmetric -/
+example : ∀ u v, u < 5 → v < 5 → hasEdge pathGraph u v = hasEdge pathGraph v u :=
+  fun u v hu hv =>
+    (by decide +kernel : ∀ a, a < 5 → ∀ b, b < 5 → hasEdge pathGraph a b = hasEdge pathGraph b a) u hu v hv
+
 /-! ## NNClassifier -/
 
 /-- the selection contract of `np.argpartition(distances, k)[:k]` as far as the classifier needs it: `k`
@@ -503,6 +548,64 @@ theorem knn_labels_in_seed_set (emb : List (List Rat)) (labels : List Int) (kArg
   obtain ⟨h1, h0⟩ := (Knn.mem_trainIdx labels _).mp hm
   rw [← hpe]
   exact ⟨Diffusion.getD_mem h1 _, h0⟩
+
+/-- ★ **probability rows, as the property states them** (NNClassifier): with at least two labelled nodes and
+    `n_neighbors ≥ 1` a label reaches every node, and every row of `probs_` sums to 1 (never to 0). -/
+theorem knn_rows_strong (emb : List (List Rat)) (labels : List Int) (kArg : Nat)
+    (sel : Nat → List Rat → Nat → List Nat) (hsel : SelOK sel) (o : Knn.Out)
+    (h : Knn.fitCore emb labels kArg sel = some o) (hk : 1 ≤ kArg) (h2 : 2 ≤ (Knn.trainIdx labels).length)
+    (i : Nat) (hi : i < labels.length) :
+    Spec.rowStrong 0 true (getRow o.probs i) = true := by
+  have hp := Knn.fit_parts emb labels kArg sel o h
+  set k := (checkNeighbors kArg (Knn.trainIdx labels).length).toNat with hkd
+  have hrow : getRow o.probs i = Knn.row emb labels k sel i := by
+    rw [hp.probs, getRow_tab, if_pos hi]
+  have hnn : ∀ x ∈ getRow o.probs i, 0 ≤ x := by
+    have hm : getRow o.probs i ∈ o.probs := by
+      rw [hrow, hp.probs]
+      exact (mem_tab _ _ _).mpr ⟨i, hi, rfl⟩
+    have := Knn.rows_ok emb labels kArg sel o h _ hm
+    unfold Spec.rowOK at this
+    simp only [Bool.and_eq_true, List.all_eq_true, decide_eq_true_eq] at this
+    exact this.1
+  apply rowStrong_of hnn true _ (fun hf => by cases hf)
+  intro _
+  rw [hrow]
+  apply Knn.row_sum_one emb labels k sel i hi
+  by_cases hseed : 0 ≤ labels.getD i (-1)
+  · exact Or.inl hseed
+  · right
+    have hk1 : 1 ≤ k := by
+      rw [hkd]
+      unfold checkNeighbors
+      split <;> omega
+    have hdl : (Knn.distances emb (Knn.trainIdx labels) (getRow emb i)).length = (Knn.trainIdx labels).length := by
+      unfold Knn.distances
+      simp
+    have hklt : k < (Knn.distances emb (Knn.trainIdx labels) (getRow emb i)).length := by
+      rw [hdl, hkd]
+      exact checkNeighbors_lt _ _ (by omega)
+    have hc := hsel i (Knn.distances emb (Knn.trainIdx labels) (getRow emb i)) k hklt
+    unfold IsSmallestK at hc
+    simp only [Bool.and_eq_true, beq_iff_eq, List.all_eq_true, decide_eq_true_eq] at hc
+    obtain ⟨⟨⟨hlen, _⟩, hrange⟩, _⟩ := hc
+    constructor
+    · unfold Knn.neighbourLabels
+      intro h0
+      have := congrArg List.length h0
+      simp only [List.length_map, List.length_nil] at this
+      omega
+    · intro x hx
+      unfold Knn.neighbourLabels at hx
+      obtain ⟨p, hp', rfl⟩ := List.mem_map.mp hx
+      have hlt : p < (Knn.trainIdx labels).length := by
+        rw [← hdl]
+        exact hrange p hp'
+      have hm : (Knn.trainIdx labels).getD p 0 ∈ Knn.trainIdx labels := by
+        rw [List.getD_eq_getElem?_getD, List.getElem?_eq_getElem hlt]
+        exact List.getElem_mem hlt
+      obtain ⟨h1, h0⟩ := (Knn.mem_trainIdx labels _).mp hm
+      exact ⟨h0, Knn.nCols_gt labels _ (Diffusion.getD_mem h1 _) h0⟩
 
 /-- ★ **k nearest labelled nodes** (NNClassifier).  For any selection satisfying the contract of
     `np.argpartition`, the row of an unlabelled node satisfies the nearest-neighbour specification that the `spec`
@@ -592,8 +695,21 @@ theorem rank_rows (values : List Int) (scores : List (List Rat)) (o : Rank.Out)
     ∀ row ∈ o.probs, Spec.rowOK 0 row = true :=
   Rank.probs_rows_ok values scores o h hnn hlen
 
-example : (Rank.fitCore [5,-1,2,-1] [[1/2,0],[1/4,1/4],[0,1],[0,0]]).map (·.labels) = .ok [2,2,5,2] := by
-  decide +kernel
+/-- ★ **probability rows, as the property states them** (RankClassifier): the row of a node sums to 1 unless all
+    its scores are null (no class reaches it), and then to 0. -/
+theorem rank_rows_strong (values : List Int) (scores : List (List Rat)) (o : Rank.Out)
+    (h : Rank.fitCore values scores = .ok o) (hnn : ∀ r ∈ scores, ∀ x ∈ r, 0 ≤ x)
+    (hlen : ∀ r ∈ scores, r.length = (uniqueLabels values).length) (j : Nat) (hj : j < scores.length) :
+    Spec.rowStrong 0 (!(getRow scores j).all (· == 0)) (getRow o.probs j) = true :=
+  Rank.probs_row_strong values scores o h hnn hlen j hj
+
+/-- non-vacuity of `rank_labels_in_seed_set`, `rank_rows`, `rank_rows_strong`: labels {2, 5}, four nodes, the last one
+    with null scores (row of `probs_` null, label = first class) -/
+example : (Rank.fitCore [5,-1,2,-1] [[1/2,0],[1/4,1/4],[0,1],[0,0]]).map (fun o => (o.labels, o.probs)) =
+      .ok ([2,2,5,2], [[0,0,1,0,0,0],[0,0,1/2,0,0,1/2],[0,0,0,0,0,1],[0,0,0,0,0,0]]) ∧
+    (∀ r ∈ [[1/2,0],[1/4,1/4],[0,1],[(0:Rat),0]], ∀ x ∈ r, (0:Rat) ≤ x) ∧
+    (∀ r ∈ [[1/2,0],[1/4,1/4],[0,1],[(0:Rat),0]], r.length = (uniqueLabels [5,-1,2,-1]).length) := by
+  refine ⟨by decide +kernel, by decide +kernel, by decide +kernel⟩
 
 /-! ## NNLinker -/
 
@@ -618,6 +734,10 @@ theorem nnlinker_rows (emb : List (List Rat)) (mask : List Bool) (kArg : Nat) (t
   simp only
   rw [tab_getD]
   simp [hi, hm]
+
+/-- non-vacuity of `nnlinker_rows`: three nodes, all rows asked for, `n_neighbors = 1` -/
+example : Linker.fitCore [[1,0],[1,1],[0,1]] [true,false,true] 1 (1/2) (fun _ ks k => smallestK ks k) =
+    [[(0, 1)], [], [(1, 1)]] := by decide +kernel
 
 /-- non-vacuity: similarities with a tie at the boundary, `n_neighbors = 2`, threshold 1/2 -/
 example : IsSmallestK ([3/4, 1/4, 3/4, 1, 0].map fun s => -s) 2 [3, 0] = true ∧
